@@ -1,6 +1,7 @@
 package main
 
 import (
+	"path/filepath"
 	"crypto/sha256"
 	"encoding/hex"
 	"fmt"
@@ -49,6 +50,9 @@ type Verifier struct {
 	mathInt      map[string]bool
 	uses         map[string]map[string]bool // caller -> callee contracts used
 	trustedUsed  map[string]bool
+	postulated   map[string]bool
+	relied       map[string][]string
+	feasQueries  int
 }
 
 func loadVerifier(repo, contractPath string) (*Verifier, error) {
@@ -145,6 +149,26 @@ func (v *Verifier) noteMathInt(fn string) {
 	v.mathInt[fn] = true
 	v.mu.Unlock()
 }
+func (v *Verifier) notePostulate(name string) {
+	v.mu.Lock()
+	if v.postulated == nil {
+		v.postulated = map[string]bool{}
+	}
+	v.postulated[name] = true
+	v.mu.Unlock()
+}
+func (v *Verifier) noteRelies(name string, cs []*Clause) {
+	v.mu.Lock()
+	if v.relied == nil {
+		v.relied = map[string][]string{}
+	}
+	var ss []string
+	for _, c := range cs {
+		ss = append(ss, c.Src)
+	}
+	v.relied[name] = ss
+	v.mu.Unlock()
+}
 func (v *Verifier) noteUse(caller, callee string, con *Contract) {
 	v.mu.Lock()
 	defer v.mu.Unlock()
@@ -209,6 +233,7 @@ func (v *Verifier) loadPrelude() error {
 type FuncResult struct {
 	Name        string
 	Obls        []*Obligation
+	Groups      []*Group
 	Errors      []string
 	Paths       int
 	Returns     int
@@ -252,6 +277,17 @@ func (v *Verifier) verifyFunc(name string) *FuncResult {
 	if con != nil {
 		x.props = con.Props
 	}
+	// location functions mentioned by the prelude are always declared
+	x.preludeLoc = map[string]bool{}
+	for sym := range x.usedSymbols(v.preludeText) {
+		if strings.HasSuffix(sym, "@|") {
+			n := strings.Trim(sym, "|")
+			x.preludeLoc[sym] = true
+			if _, ok := x.locfns[n]; !ok {
+				x.locfns[n] = locFn{name: n, tag: v.locTag(n)}
+			}
+		}
+	}
 	x.decl("now!0", SInt)
 	st := &State{x: x, heap: map[string]string{}, ghost: map[string]string{}, now: "now!0"}
 	fr := &Frame{fn: fn, vals: map[ssa.Value]Val{}, block: nil}
@@ -281,13 +317,16 @@ func (v *Verifier) verifyFunc(name string) *FuncResult {
 		}
 	}
 	if con != nil {
-		for _, rq := range con.Requires {
+		for _, rq := range append(append([]*Clause(nil), con.Requires...), con.Relies...) {
 			t, err := env.evalBool(rq.E)
 			if err != nil {
 				x.errorf("requires %q: %v", rq.Src, err)
 				continue
 			}
 			st.assume(t)
+		}
+		if len(con.Relies) > 0 {
+			v.noteRelies(name, con.Relies)
 		}
 		if con.Decr != nil {
 			d, err := env.evalTerm(con.Decr)
@@ -323,16 +362,13 @@ func (v *Verifier) verifyFunc(name string) *FuncResult {
 	st.entry = st.snapshot()
 	// vacuity: the precondition must be satisfiable
 	x.obls = append(x.obls, &Obligation{Name: name + "#pre.sat", Func: name, Kind: "cover", Tags: x.tagsOf(nil), Src: "precondition is satisfiable",
-		Facts: st.factList(), Goal: "false", Expect: "sat"})
+		pre: st.facts, Goal: "false", Expect: "sat"})
 	x.run(st)
 	res.Obls = x.obls
 	res.Errors = x.errors
 	res.Paths = x.paths
 	res.Returns = x.returns
-	// build scripts
-	for _, o := range res.Obls {
-		o.Script = x.script(o)
-	}
+	res.Groups = x.makeGroups(res.Obls)
 	return res
 }
 
@@ -359,10 +395,9 @@ func (x *Exec) finish(st *State, res Val, pos token.Pos) {
 			}
 		}
 	}
-	if !x.coverDone {
-		x.coverDone = true
+	if x.returns < 6 {
 		x.obls = append(x.obls, &Obligation{Name: x.shortFn(fn) + "#cover.return", Func: x.shortFn(fn), Kind: "cover", Tags: x.tagsOf(nil),
-			Src: "some return is reachable under the precondition", Facts: st.factList(), Goal: "false", Expect: "sat", Path: strings.Join(st.path, " ")})
+			Src: "some return is reachable under the precondition", pre: st.facts, Goal: "false", Expect: "sat", Path: strings.Join(st.path, " ")})
 	}
 	if con == nil {
 		return
@@ -406,20 +441,37 @@ const basePrelude = `(set-option :smt.mbqi false)
 func (x *Exec) script(o *Obligation) string {
 	var sb strings.Builder
 	texts := append([]string{o.Goal}, o.Facts...)
+	sb.WriteString(x.header(texts))
+	for _, f := range o.Facts {
+		sb.WriteString("(assert ")
+		sb.WriteString(f)
+		sb.WriteString(")\n")
+	}
+	if o.Expect == "unsat" {
+		sb.WriteString("(assert (not ")
+		sb.WriteString(o.Goal)
+		sb.WriteString("))\n")
+	}
+	sb.WriteString("(check-sat)\n")
+	return sb.String()
+}
+
+// header: prelude, location functions and declarations for the symbols used in texts.
+func (x *Exec) header(texts []string) string {
+	var sb strings.Builder
 	used := x.usedSymbols(texts...)
 	sb.WriteString(basePrelude)
-	sb.WriteString(x.v.preludeText)
-	sb.WriteString("\n")
 	// location functions
 	var lfs []string
 	for n := range x.locfns {
 		lfs = append(lfs, n)
 	}
+	preludeLoc := x.preludeLoc
 	sort.Strings(lfs)
 	for _, n := range lfs {
 		lf := x.locfns[n]
 		q := quote(lf.name)
-		if !used[q] {
+		if !used[q] && !preludeLoc[q] {
 			continue
 		}
 		inv := quote(lf.name + "^-1")
@@ -427,6 +479,8 @@ func (x *Exec) script(o *Obligation) string {
 		fmt.Fprintf(&sb, "(assert (forall ((r Int)) (! (and (= (%s (%s r)) r) (= (tagof (%s r)) %d) (= (birth (%s r)) (birth r)) (> (%s r) 0)) :pattern ((%s r)))))\n",
 			inv, q, q, lf.tag, q, q, q)
 	}
+	sb.WriteString(x.v.preludeText)
+	sb.WriteString("\n")
 	// global references: distinct, non-nil, allocated before everything
 	var grefs []string
 	for _, s := range sortedKeys(used) {
@@ -451,24 +505,36 @@ func (x *Exec) script(o *Obligation) string {
 					fmt.Fprintf(&sb, "(assert (forall ((r Int)) (! (or (= (sarr (select %s r)) 0) (< (birth (sarr (select %s r))) now!0)) :pattern ((select %s r)))))\n", s, s, s)
 				}
 			}
+			if strings.HasPrefix(s, "|file#") {
+				fmt.Fprintf(&sb, "(assert (forall ((a Int) (i Int)) (! (and (<= 0 (select (select %s a) i)) (< (select (select %s a) i) 256)) :pattern ((select (select %s a) i)))))\n", s, s, s)
+			}
 			if strings.HasPrefix(s, "|mem.byte#") {
 				// type invariant of byte memory: every cell holds a value in 0..255
 				fmt.Fprintf(&sb, "(assert (forall ((a Int) (i Int)) (! (and (<= 0 (select (select %s a) i)) (< (select (select %s a) i) 256)) :pattern ((select (select %s a) i)))))\n", s, s, s)
 			}
 		}
 	}
-	for _, f := range o.Facts {
-		sb.WriteString("(assert ")
-		sb.WriteString(f)
-		sb.WriteString(")\n")
-	}
-	if o.Expect == "unsat" {
-		sb.WriteString("(assert (not ")
-		sb.WriteString(o.Goal)
-		sb.WriteString("))\n")
-	}
-	sb.WriteString("(check-sat)\n")
 	return sb.String()
 }
 
 var _ = types.Typ
+
+// feasible asks the solver whether the current path facts together with cond are
+// satisfiable; only a definite `unsat` prunes. Used to cut infeasible arms at forks.
+func (x *Exec) feasible(st *State, cond string) bool {
+	if os.Getenv("GOVC_NOPRUNE") != "" {
+		return true
+	}
+	o := &Obligation{Facts: append(st.factList(), cond), Goal: "false", Expect: "sat", Script: ""}
+	script := x.script(o)
+	h := sha256.Sum256([]byte(script))
+	dir := filepath.Join("/verif/.work", fmt.Sprintf("feas-%d", os.Getpid()))
+	os.MkdirAll(dir, 0755)
+	path := filepath.Join(dir, hex.EncodeToString(h[:10]))
+	r := runSolverArgs(solvers[0], path, script, []string{"-t:250"})
+	os.Remove(path + ".z3-new.smt2")
+	x.v.mu.Lock()
+	x.v.feasQueries++
+	x.v.mu.Unlock()
+	return r.status != "unsat"
+}
